@@ -1,7 +1,7 @@
 (* Properties/C06.v -- C06: the returned deformation gradient solves dF/dt = L.F *)
 From Coq Require Import Reals ZArith List.
 From Coquelicot Require Import Hierarchy Derive.
-From PV Require Import Num NumR Model_core Model_minerals Proofs_core Proofs_minerals Proofs_rhs Proofs_flow.
+From PV Require Import Num NumR Model_core Model_minerals Proofs_core Proofs_total Proofs_minerals Proofs_rhs Proofs_flow Proofs_path Proofs_path2.
 Import ListNotations.
 Open Scope R_scope.
 
@@ -43,3 +43,96 @@ Proof. exact det_rate. Qed.
 Theorem C06_det_rate_identity : forall (L F : list R), length L = 9%nat -> length F = 9%nat ->
   det_rate9 F (@mat_mul9 NumR L F) = trace9 L * det9 F.
 Proof. exact det_rate_identity. Qed.
+
+(* ---- capstones for the texture ODE itself -------------------------------------------------------
+   y : nat -> R -> R is the state vector as a function of time (entries 0..8 = F row-major, then 9 n
+   orientation entries, then n volume fractions); f ... Lh sh t z i (Proofs_path.f) is component i of the
+   modelled eval_rhs at time t and state z for the velocity-gradient history Lh and strain-rate scale sh.
+   "rhs ... = Ok out" = eval_rhs does not raise at that state (it does not in regimes 0, 1, 7 and, for a
+   valid (phase, fabric) and stress exponent <> 0, in regimes 4 and 6: see C06_rhs_ok_supported). *)
+
+(* wherever the F entries of y satisfy the ODE and eval_rhs does not raise, the F block solves
+   dF/dt = L(t).F  (operand order included) -- whatever the regime, the mineral, its parameters and its
+   texture (entries >= 9 of y are not even required to solve anything) *)
+Theorem C06_solution_F_block :
+  forall (regime ph fb : Z) (n : nat) (ass : list Z) (frs Sd : list R) (p nn lam M : R)
+         (Lh : R -> list R) (sh : R -> R) (y : nat -> R -> R) (t : R),
+  (exists out, @rhs NumR regime ph fb n ass frs (Lh t) (sh t) Sd p nn lam M (ylist n (fun j => y j t)) = Ok out) ->
+  (forall i, (i < 9)%nat ->
+     is_derive (y i) t (f regime ph fb n ass frs Sd p nn lam M Lh sh t (fun j => y j t) i)) ->
+  forall i j, (i < 3)%nat -> (j < 3)%nat ->
+    is_derive (y (3 * i + j)%nat) t
+      (nth (3 * i) (Lh t) 0 * y j t + nth (3 * i + 1) (Lh t) 0 * y (3 + j)%nat t
+       + nth (3 * i + 2) (Lh t) 0 * y (6 + j)%nat t).
+Proof. exact solution_F_block. Qed.
+
+(* ... and consequently (det F)' = tr L(t) . det F  (detF y = determinant of entries 0..8 of y) *)
+Theorem C06_solution_det_rate :
+  forall (regime ph fb : Z) (n : nat) (ass : list Z) (frs Sd : list R) (p nn lam M : R)
+         (Lh : R -> list R) (sh : R -> R) (y : nat -> R -> R) (t : R),
+  (exists out, @rhs NumR regime ph fb n ass frs (Lh t) (sh t) Sd p nn lam M (ylist n (fun j => y j t)) = Ok out) ->
+  (forall i, (i < 9)%nat ->
+     is_derive (y i) t (f regime ph fb n ass frs Sd p nn lam M Lh sh t (fun j => y j t) i)) ->
+  is_derive (detF y) t ((nth 0 (Lh t) 0 + nth 4 (Lh t) 0 + nth 8 (Lh t) 0) * detF y t).
+Proof. exact solution_det_rate. Qed.
+
+(* incompressible flow (tr L = 0 on [a,b]): det F is conserved along every exact solution *)
+Theorem C06_solution_det_incompressible :
+  forall (regime ph fb : Z) (n : nat) (ass : list Z) (frs Sd : list R) (p nn lam M : R)
+         (Lh : R -> list R) (sh : R -> R) (y : nat -> R -> R) (a b : R),
+  a <= b ->
+  (forall t, a <= t <= b ->
+     exists out, @rhs NumR regime ph fb n ass frs (Lh t) (sh t) Sd p nn lam M (ylist n (fun j => y j t)) = Ok out) ->
+  (forall i t, (i < 9)%nat -> a <= t <= b ->
+     is_derive (y i) t (f regime ph fb n ass frs Sd p nn lam M Lh sh t (fun j => y j t) i)) ->
+  (forall t, a <= t <= b -> nth 0 (Lh t) 0 + nth 4 (Lh t) 0 + nth 8 (Lh t) 0 = 0) ->
+  detF y b = detF y a.
+Proof. exact solution_det_incompressible. Qed.
+
+(* closed form: det F(b) = det F(a) exp(T(b) - T(a)) for every antiderivative T of tr L on [a,b]
+   (i.e. exp of the integral of tr L) ... *)
+Theorem C06_solution_det_exp :
+  forall (regime ph fb : Z) (n : nat) (ass : list Z) (frs Sd : list R) (p nn lam M : R)
+         (Lh : R -> list R) (sh : R -> R) (y : nat -> R -> R) (a b : R) (Tr : R -> R),
+  a <= b ->
+  (forall t, a <= t <= b ->
+     exists out, @rhs NumR regime ph fb n ass frs (Lh t) (sh t) Sd p nn lam M (ylist n (fun j => y j t)) = Ok out) ->
+  (forall i t, (i < 9)%nat -> a <= t <= b ->
+     is_derive (y i) t (f regime ph fb n ass frs Sd p nn lam M Lh sh t (fun j => y j t) i)) ->
+  (forall t, a <= t <= b -> is_derive Tr t (nth 0 (Lh t) 0 + nth 4 (Lh t) 0 + nth 8 (Lh t) 0)) ->
+  detF y b = detF y a * exp (Tr b - Tr a).
+Proof. exact solution_det_exp. Qed.
+
+(* ... in particular for a constant trace c: det F(b) = det F(a) exp(c (b - a)) *)
+Theorem C06_solution_det_constant_trace :
+  forall (regime ph fb : Z) (n : nat) (ass : list Z) (frs Sd : list R) (p nn lam M : R)
+         (Lh : R -> list R) (sh : R -> R) (y : nat -> R -> R) (a b c : R),
+  a <= b ->
+  (forall t, a <= t <= b ->
+     exists out, @rhs NumR regime ph fb n ass frs (Lh t) (sh t) Sd p nn lam M (ylist n (fun j => y j t)) = Ok out) ->
+  (forall i t, (i < 9)%nat -> a <= t <= b ->
+     is_derive (y i) t (f regime ph fb n ass frs Sd p nn lam M Lh sh t (fun j => y j t) i)) ->
+  (forall t, a <= t <= b -> nth 0 (Lh t) 0 + nth 4 (Lh t) 0 + nth 8 (Lh t) 0 = c) ->
+  detF y b = detF y a * exp (c * (b - a)).
+Proof. exact solution_det_const_trace. Qed.
+
+(* the "rhs = Ok" hypothesis holds at EVERY state in the documented regimes once the phase is listed in
+   the assemblage *)
+Theorem C06_rhs_ok_supported :
+  forall (regime ph fb : Z) (n : nat) (ass : list Z) (frs Sd : list R) (p nn lam M : R)
+         (L : list R) (s : R) (yl : list R) (phi : R),
+  (regime = 0%Z \/ regime = 1%Z \/ regime = 7%Z \/ (dislocation_regime regime /\ valid_pair ph fb /\ nn <> 0)) ->
+  @lookup_fraction NumR ph ass frs = Ok phi ->
+  exists out, @rhs NumR regime ph fb n ass frs L s Sd p nn lam M yl = Ok out.
+Proof. exact rhs_ok_supported. Qed.
+
+(* non-vacuity: pure shear L = diag(1,-1,0) (strain-rate scale 1), regime 0: shear_y, with
+   F(t) = diag(e^t, e^-t, 1) and a constant 2-grain texture, IS an exact solution on which rhs is Ok;
+   tr L = 0 and indeed det F(t) = 1 *)
+Example C06_solution_nonvacuous :
+  (forall i t, is_derive (shear_y i) t
+     (f 0 0 0 2 [0%Z] [1] [] 1.5 3.5 30 125 (fun _ => shear_L) (fun _ => 1) t (fun j => shear_y j t) i)) /\
+  (forall t, exists out, @rhs NumR 0 0 0 2 [0%Z] [1] shear_L 1 [] 1.5 3.5 30 125 (ylist 2 (fun j => shear_y j t)) = Ok out) /\
+  (forall t : R, nth 0 shear_L 0 + nth 4 shear_L 0 + nth 8 shear_L 0 = 0) /\
+  (forall t, detF shear_y t = 1).
+Proof. exact shear_is_solution_proof. Qed.
